@@ -1,8 +1,10 @@
 package main
 
 // C53 driver: real `restic diff` (JSON output) on pairs of hand-built snapshots that differ by up to three
-// edits (add, remove, type change, content change, metadata-only change) at depth 0-2, with untouched
-// identical subtrees; one record per diff, judged by spec/Fn_Diff.tla.  Uses zz_verif_c20*_test.go helpers.
+// edits (add, remove, type change, content change, metadata-only change, identical copy of a subtree), with
+// untouched identical subtrees and with identical subtrees / files at several places of one snapshot (same
+// tree blob below siblings, nested, inside added / removed / type-changed directories); one record per diff,
+// judged by spec/Fn_Diff.tla.  Uses zz_verif_c20*_test.go helpers.
 
 import (
 	"context"
@@ -14,7 +16,9 @@ import (
 	"testing"
 	"time"
 
+	"github.com/restic/restic/internal/data"
 	"github.com/restic/restic/internal/global"
+	"github.com/restic/restic/internal/restic"
 	kit "github.com/restic/restic/internal/verifkit"
 )
 
@@ -74,13 +78,118 @@ func vC53Remove(nodes []vBNode, p string, self bool) []vBNode {
 	return res
 }
 
+func vC53Depth(p string) int {
+	if p == "" {
+		return 0
+	}
+	return strings.Count(p, "/") + 1
+}
+
+// vC53MaxDepth bounds the depth of the trees (copies of subtrees are only placed where they fit).
+const vC53MaxDepth = 5
+
+// vC53CopyTo returns copies of the entry src and of everything below it, moved to dst.  Types, content keys and
+// metadata variants are kept, so the copy of a directory gets the same tree blob as the original and the copy of a
+// file the same content blobs.
+func vC53CopyTo(nodes []vBNode, src, dst string) []vBNode {
+	var res []vBNode
+	for _, n := range nodes {
+		if n.Path == src || strings.HasPrefix(n.Path, src+"/") {
+			c := n
+			c.Path = dst + n.Path[len(src):]
+			res = append(res, c)
+		}
+	}
+	return res
+}
+
+func vC53Height(nodes []vBNode, p string) int {
+	h := 1
+	for _, n := range nodes {
+		if strings.HasPrefix(n.Path, p+"/") && vC53Depth(n.Path)-vC53Depth(p)+1 > h {
+			h = vC53Depth(n.Path) - vC53Depth(p) + 1
+		}
+	}
+	return h
+}
+
+// vC53Source picks an entry to be copied: mostly a non-empty directory, sometimes any entry (file, symlink, empty dir).
+func vC53Source(r *rand.Rand, nodes []vBNode) (vBNode, bool) {
+	var nonEmpty []vBNode
+	for _, n := range nodes {
+		if n.Type == "dir" && len(vC53Below(nodes, n.Path)) > 0 {
+			nonEmpty = append(nonEmpty, n)
+		}
+	}
+	if len(nonEmpty) > 0 && r.Intn(4) > 0 {
+		return nonEmpty[r.Intn(len(nonEmpty))], true
+	}
+	if len(nodes) == 0 {
+		return vBNode{}, false
+	}
+	return nodes[r.Intn(len(nodes))], true
+}
+
+func vC53FreeName(r *rand.Rand, nodes []vBNode, parent string, names []string) string {
+	have := map[string]bool{}
+	for _, n := range nodes {
+		have[n.Path] = true
+	}
+	for _, i := range r.Perm(len(names)) {
+		p := names[i]
+		if parent != "" {
+			p = parent + "/" + p
+		}
+		if !have[p] {
+			return p
+		}
+	}
+	return ""
+}
+
+// vC53Clone adds an identical copy of an existing entry (see vC53Source) under a free name: next to the original, in
+// the root or below any other directory (also inside the original itself).
+func vC53Clone(r *rand.Rand, nodes []vBNode, names []string) ([]vBNode, string) {
+	src, ok := vC53Source(r, nodes)
+	if !ok {
+		return nodes, ""
+	}
+	parents := []string{""}
+	for _, n := range nodes {
+		if n.Type == "dir" {
+			parents = append(parents, n.Path)
+		}
+	}
+	r.Shuffle(len(parents), func(i, j int) { parents[i], parents[j] = parents[j], parents[i] })
+	if r.Intn(3) == 0 { // a copy next to the original
+		sib := ""
+		if i := strings.LastIndex(src.Path, "/"); i >= 0 {
+			sib = src.Path[:i]
+		}
+		parents = append([]string{sib}, parents...)
+	}
+	h := vC53Height(nodes, src.Path)
+	for _, parent := range parents {
+		if vC53Depth(parent)+h > vC53MaxDepth {
+			continue
+		}
+		dst := vC53FreeName(r, nodes, parent, names)
+		if dst == "" {
+			continue
+		}
+		out := append([]vBNode{}, nodes...)
+		return append(out, vC53CopyTo(nodes, src.Path, dst)...), "clone-" + src.Type
+	}
+	return nodes, ""
+}
+
 // vC53Edit applies one random edit and returns the new node list and the kind of edit ("" if not applicable).
 func vC53Edit(r *rand.Rand, nodes []vBNode, names []string, serial int) ([]vBNode, string) {
 	have := map[string]bool{}
 	for _, n := range nodes {
 		have[n.Path] = true
 	}
-	depth := func(p string) int { return strings.Count(p, "/") + 1 }
+	depth := vC53Depth
 	pick := func(ok func(n vBNode) bool) (int, bool) {
 		var idx []int
 		for i, n := range nodes {
@@ -93,16 +202,53 @@ func vC53Edit(r *rand.Rand, nodes []vBNode, names []string, serial int) ([]vBNod
 		}
 		return idx[r.Intn(len(idx))], true
 	}
+	// newChildren draws the content of a new directory p: fresh entries (also non-empty directories), identical
+	// copies of entries that exist elsewhere in the tree, and twins of children drawn before.
 	newChildren := func(p string, k int) []vBNode {
 		var res []vBNode
 		perm := r.Perm(len(names))
+		var roots []string
 		for i := 0; i < k; i++ {
-			res = append(res, vBNode{Path: p + "/" + names[perm[i]], Type: []string{"file", "file", "symlink", "dir"}[r.Intn(4)], Key: fmt.Sprintf("new%d-%d", serial, i)})
+			cp := p + "/" + names[perm[i]]
+			fresh := func() {
+				res = append(res, vBNode{Path: cp, Type: []string{"file", "file", "symlink"}[r.Intn(3)], Key: fmt.Sprintf("new%d-%d", serial, i)})
+			}
+			clone := func(from []vBNode, src string) bool {
+				if src == "" || depth(p)+vC53Height(from, src) > vC53MaxDepth {
+					return false
+				}
+				res = append(res, vC53CopyTo(from, src, cp)...)
+				return true
+			}
+			switch x := r.Intn(8); {
+			case x < 2:
+				fresh()
+			case x == 2:
+				res = append(res, vBNode{Path: cp, Type: "dir", Key: fmt.Sprintf("new%d-%d", serial, i)})
+				if depth(cp) < vC53MaxDepth {
+					gperm := r.Perm(len(names))
+					for g, ng := 0, r.Intn(3); g < ng; g++ {
+						res = append(res, vBNode{Path: cp + "/" + names[gperm[g]], Type: []string{"file", "symlink"}[r.Intn(2)], Key: fmt.Sprintf("new%d-%d-%d", serial, i, g)})
+					}
+				}
+			case x < 6 || len(roots) == 0:
+				src, ok := vC53Source(r, nodes)
+				if !ok || !clone(nodes, src.Path) {
+					fresh()
+				}
+			default:
+				if !clone(append([]vBNode{}, res...), roots[r.Intn(len(roots))]) {
+					fresh()
+				}
+			}
+			roots = append(roots, cp)
 		}
 		return res
 	}
 	out := append([]vBNode{}, nodes...)
-	switch kind := []string{"add", "remove", "type", "content", "meta", "add", "remove", "type"}[r.Intn(8)]; kind {
+	switch kind := []string{"add", "remove", "type", "content", "meta", "add", "remove", "type", "clone", "add"}[r.Intn(10)]; kind {
+	case "clone":
+		return vC53Clone(r, nodes, names)
 	case "add":
 		parents := []string{""}
 		for _, n := range nodes {
@@ -118,10 +264,10 @@ func vC53Edit(r *rand.Rand, nodes []vBNode, names []string, serial int) ([]vBNod
 		if have[p] {
 			return nodes, ""
 		}
-		t := []string{"file", "file", "symlink", "dir", "dir"}[r.Intn(5)]
+		t := []string{"file", "file", "symlink", "dir", "dir", "dir"}[r.Intn(6)]
 		out = append(out, vBNode{Path: p, Type: t, Key: fmt.Sprintf("add%d", serial)})
-		if t == "dir" && depth(p) < 3 {
-			out = append(out, newChildren(p, r.Intn(3))...)
+		if t == "dir" {
+			out = append(out, newChildren(p, r.Intn(4))...)
 		}
 		return out, "add-" + t
 	case "remove":
@@ -153,8 +299,8 @@ func vC53Edit(r *rand.Rand, nodes []vBNode, names []string, serial int) ([]vBNod
 					out[j].Type = nt
 				}
 			}
-			if nt == "dir" && depth(n.Path) < 3 {
-				out = append(out, newChildren(n.Path, r.Intn(3))...)
+			if nt == "dir" && depth(n.Path) < vC53MaxDepth {
+				out = append(out, newChildren(n.Path, r.Intn(4))...)
 			}
 			return out, "type-" + n.Type + "-to-" + nt
 		}
@@ -163,7 +309,16 @@ func vC53Edit(r *rand.Rand, nodes []vBNode, names []string, serial int) ([]vBNod
 		if !ok {
 			return nodes, ""
 		}
-		out[i].Key += "'"
+		if k := out[i].Key; r.Intn(2) == 0 && len(k) > 0 {
+			// same length (hence same file size), different bytes
+			last := byte('x')
+			if k[len(k)-1] == 'x' {
+				last = 'y'
+			}
+			out[i].Key = k[:len(k)-1] + string(last)
+		} else {
+			out[i].Key += "'"
+		}
 		if r.Intn(3) == 0 {
 			out[i].Meta++ // usually content and metadata change together
 		}
@@ -175,6 +330,103 @@ func vC53Edit(r *rand.Rand, nodes []vBNode, names []string, serial int) ([]vBNod
 		}
 		out[i].Meta++
 		return out, "meta-" + nodes[i].Type
+	}
+}
+
+// vC53TreeSigs returns, for every non-empty directory, a signature of what its tree blob contains (names, types,
+// content keys, metadata variants and the signatures of the subdirectories): equal signature = same tree blob.
+func vC53TreeSigs(nodes []vBNode) map[string]string {
+	kids := map[string][]vBNode{}
+	for _, n := range nodes {
+		parent := ""
+		if i := strings.LastIndex(n.Path, "/"); i >= 0 {
+			parent = n.Path[:i]
+		}
+		kids[parent] = append(kids[parent], n)
+	}
+	res := map[string]string{}
+	var sig func(p string) string
+	sig = func(p string) string {
+		var parts []string
+		for _, n := range kids[p] {
+			s := fmt.Sprintf("%s|%s|%d", n.Path[strings.LastIndex(n.Path, "/")+1:], n.Type, n.Meta)
+			if n.Type == "dir" {
+				s += "{" + sig(n.Path) + "}"
+			} else {
+				s += "|" + n.Key
+			}
+			parts = append(parts, s)
+		}
+		sort.Strings(parts)
+		return strings.Join(parts, ",")
+	}
+	for _, n := range nodes {
+		if n.Type == "dir" && len(kids[n.Path]) > 0 {
+			res[n.Path] = sig(n.Path)
+		}
+	}
+	return res
+}
+
+// vC53SharedBelowNew tells whether y has a non-empty directory below an entry that is new (or became a directory)
+// relative to x, whose tree blob also occurs at another path of y.
+func vC53SharedBelowNew(x, y []vBNode) bool {
+	xt := map[string]string{}
+	for _, n := range x {
+		xt[n.Path] = n.Type
+	}
+	sigs := vC53TreeSigs(y)
+	count := map[string]int{}
+	for _, s := range sigs {
+		count[s]++
+	}
+	for p, s := range sigs {
+		i := strings.LastIndex(p, "/")
+		if i < 0 || count[s] < 2 {
+			continue
+		}
+		if xt[p[:i]] != "dir" {
+			return true
+		}
+	}
+	return false
+}
+
+// vC53CheckBlobs confirms on the stored snapshot that the generator's notion of "identical subtree" is the repository's:
+// two non-empty directories have the same tree blob exactly when their signatures are equal.
+func vC53CheckBlobs(t testing.TB, e *vEnv, res *kit.Result, snap string, nodes []vBNode) {
+	repo := vOpenIndexed(t, e)
+	rid, err := restic.ParseID(snap)
+	if err != nil {
+		t.Fatal(err)
+	}
+	sn, err := data.LoadSnapshot(context.Background(), repo, rid)
+	if err != nil {
+		t.Fatal(err)
+	}
+	stored, err := vListTree(context.Background(), repo, *sn.Tree)
+	if err != nil {
+		t.Fatal(err)
+	}
+	if len(stored) != len(nodes) {
+		res.Problem("snapshot %s has %d entries, built from %d", snap[:8], len(stored), len(nodes))
+	}
+	bySig, byID := map[string]string{}, map[string]string{}
+	for p, sig := range vC53TreeSigs(nodes) {
+		id := stored["/"+p].Subtree
+		if id == "" {
+			res.Problem("directory /%s has no subtree in the stored snapshot", p)
+			continue
+		}
+		if prev, ok := bySig[sig]; ok && prev != id {
+			res.Problem("identical directories (/%s) have different tree blobs", p)
+		} else if ok {
+			res.Count("tree_blob_shared_by_two_paths", 1)
+		}
+		if prev, ok := byID[id]; ok && prev != sig {
+			res.Problem("different directories (/%s) share a tree blob", p)
+		}
+		bySig[sig], byID[id] = id, sig
 	}
 }
 
@@ -210,14 +462,14 @@ func vC53Parse(out string) ([]vC53Line, int, error) {
 }
 
 func TestVerif_C53(t *testing.T) {
-	res := kit.NewResult("one case = one real `restic diff A B` (JSON output, with and without --metadata, in both directions) of two hand-built snapshots: A a generated tree (depth <= 3 over names {a, a.b, a-b, ab, b, B}: files, symlinks, empty and nested directories), B derived from A by 0-3 edits (add, remove, type change incl. directory<->file, content change, metadata-only change) at depth 0-2, untouched subtrees staying identical; distinct by (A, B, direction, --metadata); non-trivial when the snapshots differ")
+	res := kit.NewResult("one case = one real `restic diff A B` (JSON output, with and without --metadata, in both directions) of two hand-built snapshots: A a generated tree (depth <= 3 over names {a, a.b, a-b, ab, b, B}: files, symlinks, empty and nested directories), plus 0-3 identical copies of existing subtrees/files at other places (same tree / content blobs), B derived from A by 0-3 edits (add incl. new directories whose children are fresh entries, identical copies of existing subtrees/files or twins of each other; identical copy of an existing subtree/file next to it or elsewhere; remove; type change incl. directory<->file; content change with and without size change; metadata-only change), untouched subtrees staying identical; distinct by (A, B, direction, --metadata); non-trivial when the snapshots differ")
 	recs := kit.NewNDJSON("recs.ndjson")
 	defer recs.Close()
 	rnd := kit.Rand(53)
 	names := []string{"a", "a.b", "a-b", "ab", "b", "B"}
 	nBase := kit.Pick(14, 110)
 	perBase := kit.Pick(14, 22)
-	serial := 0
+	serial, shared, maxEntries := 0, 0, 0
 	for bi := 0; bi < nBase; bi++ {
 		e := newVEnv(t, nil)
 		if err := e.init("2"); err != nil {
@@ -231,7 +483,16 @@ func TestVerif_C53(t *testing.T) {
 		for _, en := range entries {
 			A = append(A, vBNode{Path: en.Path, Type: en.Type, Key: en.Path})
 		}
+		// identical copies of subtrees / files at other places of the base tree (same tree blobs, same content blobs)
+		for c, nc := 0, []int{0, 1, 1, 2, 3}[rnd.Intn(5)]; c < nc; c++ {
+			var kind string
+			if A, kind = vC53Clone(rnd, A, names); kind != "" {
+				res.Count("base_"+kind, 1)
+			}
+		}
+		sort.Slice(A, func(i, j int) bool { return A[i].Path < A[j].Path })
 		idA := vBuildSnapshot(t, e, A, vBTime)
+		vC53CheckBlobs(t, e, res, idA, A)
 		for k := 0; k < perBase; k++ {
 			B := append([]vBNode{}, A...)
 			kinds := []string{}
@@ -251,6 +512,7 @@ func TestVerif_C53(t *testing.T) {
 			}
 			sort.Slice(B, func(i, j int) bool { return B[i].Path < B[j].Path })
 			idB := vBuildSnapshot(t, e, B, vBTime.Add(time.Duration(k+1)*time.Minute))
+			vC53CheckBlobs(t, e, res, idB, B)
 			for dir := 0; dir < 2; dir++ {
 				meta := (k+dir)%2 == 0
 				x, y, ix, iy := A, B, idA, idB
@@ -274,6 +536,17 @@ func TestVerif_C53(t *testing.T) {
 				res.Case(fmt.Sprintf("%d|%d|%d|%v", bi, k, dir, meta), len(kinds) > 0)
 				res.Count("diffs", 1)
 				res.Count("lines_listed", len(lines))
+				if vC53SharedBelowNew(x, y) {
+					res.Count("shared_tree_below_added", 1)
+					shared++
+				}
+				if vC53SharedBelowNew(y, x) {
+					res.Count("shared_tree_below_removed", 1)
+					shared++
+				}
+				if len(x)+len(y) > maxEntries {
+					maxEntries = len(x) + len(y)
+				}
 				for _, kd := range kinds {
 					res.Count("edit_"+strings.SplitN(kd, "-", 2)[0], 1)
 				}
@@ -282,6 +555,10 @@ func TestVerif_C53(t *testing.T) {
 				}
 			}
 		}
+	}
+	res.Count("max_entries_of_a_pair", maxEntries)
+	if shared == 0 {
+		res.Problem("no pair with a non-empty directory below an added/removed directory that shares its tree blob with another directory")
 	}
 	res.Save("")
 }
